@@ -148,6 +148,7 @@ def run_property(pid, tier, seed):
         for od in kr["obligations"]:
             ob = SerialObligation(od, k)
             allobs.append(ob)
+    known = load_known()
     # bounded stand-ins on the compiled code (cxxvc/native.py): never counted as proved
     for modname in prop["modules"]:
         mod = importlib.import_module(modname)
@@ -167,6 +168,19 @@ def run_property(pid, tier, seed):
             elif r["status"] == "violation":
                 out.setdefault("native_violations", []).append({"kernel": n.kid, "title": n.title, "failing_input": r["failing_input"],
                                                                 "replay_cmd": r["replay_cmd"], "source": n.source})
+            # inputs that fail only in a way the harness can name: a listed open finding for exactly that class is reported
+            # as KNOWN-FINDING, any other class is a violation like every other failing input
+            for cls, info in (r.get("classes") or {}).items():
+                kf = [f for f in known if f.get("property") == pid and f.get("kernel") == n.kid
+                      and f.get("native_class") == cls and f.get("status", "open") == "open"]
+                entry.setdefault("known_classes", {})[cls] = {"inputs": info["count"], "example": info["example"], "listed": bool(kf)}
+                if kf:
+                    out["known"].append({"kernel": n.kid, "obligation": n.title, "known": kf[0], "inputs": info["count"]})
+                else:
+                    out.setdefault("native_violations", []).append({
+                        "kernel": n.kid, "title": n.title, "failing_input": "[%s] %s" % (cls, info["example"]),
+                        "replay_cmd": "<exe> %s  (built by: python3 native/build_runtime.py /repo <dir> --probe %s -o <exe>)" % (
+                            " ".join(info["argv"]), n.source), "source": n.source})
     for l in lemmas:
         obs = l.obligations()
         for ob in obs:
@@ -281,7 +295,7 @@ def evidence(out, seed):
         "bounded": out["bounded"],
         "not_decided": prop.get("not_decided", []),
         "known_findings_matched": [{"kernel": v["kernel"], "obligation": v["obligation"],
-                                    "finding": v["known"].get("id"), "counter_model": v["model"]} for v in out["known"]],
+                                    "finding": v["known"].get("id"), "counter_model": v.get("model"), "inputs": v.get("inputs")} for v in out["known"]],
         "obligations_refuted_as_known_finding": len(out["known"]),
         "undecided": out["undecided"], "gaps": out["gaps"],
         "extract_s": out.get("extract_s"),
